@@ -22,60 +22,99 @@ from rules import common, c05
 LEVEL = "other"
 MOD = "edgegraph.output.nrpickler"
 STUB = '''
+import pickle
 class Node:
     def __init__(self, tag, children):
         self.tag = tag
         self.children = children
-class TNode(Node):
-    """a node the recursive pickler treats like a tuple: an immutable container, memoised only AFTER its children were saved; if
-    saving the children memoised it meanwhile (a tuple that contains itself through some object), the second copy is dropped and a
-    reference is written instead (pickle.Pickler.save_tuple)"""
 class Pickler:
-    """stand-in for dill.Pickler: pickles a Node graph the way the recursive pickler does (open, memoize, children, close;
-    a reference for an object that is already memoised)"""
-    dispatch = {}       # the per-type save functions of the real pickler: not consulted by this stand-in
+    \"\"\"stand-in for dill.Pickler (pickle._Pickler), with the surface a subclass may touch: write / memo / get / memoize / save /
+    dispatch / save_tuple / proto / bin / _file_write.  An object (Node) is opened, memoised, its children saved, closed; bytes values
+    are memoised leaves, large ones written straight to the file; tuples are saved by a transcription of pickle._Pickler.save_tuple
+    (memoised after their elements, with the \"memoised meanwhile?\" test).  Every operation is a bytes token, so the file sees a byte
+    stream and buffering subclasses can be evaluated.\"\"\"
+    dispatch = {}
+    LARGE = 65536       # pickle._Framer._FRAME_SIZE_TARGET: payloads of this size or more bypass self.write (protocol >= 4)
     def __init__(self, file, **kwargs):
         self.file = file
-        self.proto = kwargs.get("protocol") or 4
+        self._file_write = file.write
         self.write = file.write
-        self.memo = []
+        p = kwargs.get("protocol")
+        self.proto = 4 if p is None else p
+        self.bin = self.proto >= 1
+        self.memo = {}
         self.kwargs = kwargs
+    def _key(self, obj):
+        return obj if isinstance(obj, bytes) else id(obj)       # the bytes leaves of the harness are pairwise different values
+    def get(self, i):
+        return b"GET" + str(i).encode() + b";"
+    def memoize(self, obj):
+        assert self._key(obj) not in self.memo      # pickle.Pickler.memoize asserts that an object is memoised once
+        idx = len(self.memo)
+        self.write(b"PUT" + str(idx).encode() + b";")
+        self.memo[self._key(obj)] = (idx, obj)
     def save(self, obj, save_persistent_id=None):
-        if isinstance(obj, bytes):
-            # a leaf value that the real pickler memoises as well (bytes, str): written whole the first time, as a reference afterwards
-            if obj in self.memo:
-                self.write(("REF", obj))
-                return
-            self.write(("BYTES", obj))
-            self.memoize(obj)
+        x = self.memo.get(self._key(obj))
+        if x is not None:
+            self.write(self.get(x[0]))
             return
-        if obj in self.memo:
-            self.write(("REF", obj.tag))
+        f = self.dispatch.get(type(obj))
+        if f is not None:
+            f(self, obj)
             return
-        if isinstance(obj, TNode):
-            self.write(("TOPEN", obj.tag))
-            for c in obj.children:
-                self.save(c)
-            if obj in self.memo:
-                self.write(("TDROP", obj.tag))
-                self.write(("REF", obj.tag))
-                return
-            self.write(("TCLOSE", obj.tag))
-            self.memoize(obj)
-            return
-        self.write(("OPEN", obj.tag))
+        self.write(b"OPEN:" + obj.tag.encode() + b";")
         self.memoize(obj)
         for c in obj.children:
             self.save(c)
-        self.write(("CLOSE", obj.tag))
-    def memoize(self, obj):
-        assert not any(m is obj for m in self.memo)      # pickle.Pickler.memoize asserts that an object is memoised once
-        self.memo.append(obj)
-        self.write(("MEMO", obj if isinstance(obj, bytes) else obj.tag))
+        self.write(b"CLOSE:" + obj.tag.encode() + b";")
+    def save_bytes(self, obj):
+        if self.proto >= 4 and len(obj) >= self.LARGE:
+            self._file_write(b"BYTES8:")       # pickle._Framer.write_large_bytes: header and payload go straight to the file
+            self._file_write(obj)
+        else:
+            self.write(b"BYTES:" + obj + b";")
+        self.memoize(obj)
+    dispatch[bytes] = save_bytes
+    def save_tuple(self, obj):
+        if not obj:
+            if self.bin:
+                self.write(pickle.EMPTY_TUPLE)
+            else:
+                self.write(pickle.MARK + pickle.TUPLE)
+            return
+        n = len(obj)
+        save = self.save
+        memo = self.memo
+        if n <= 3 and self.proto >= 2:
+            for element in obj:
+                save(element)
+            if id(obj) in memo:
+                get = self.get(memo[id(obj)][0])
+                self.write(pickle.POP * n + get)
+            else:
+                self.write((pickle.EMPTY_TUPLE, pickle.TUPLE1, pickle.TUPLE2, pickle.TUPLE3)[n])
+                self.memoize(obj)
+            return
+        write = self.write
+        write(pickle.MARK)
+        for element in obj:
+            save(element)
+        if id(obj) in memo:
+            get = self.get(memo[id(obj)][0])
+            if self.bin:
+                write(pickle.POP_MARK + get)
+            else:
+                write(pickle.POP * (n + 1) + get)
+            return
+        write(pickle.TUPLE)
+        self.memoize(obj)
+    dispatch[tuple] = save_tuple
     def dump(self, obj):
         self.save(obj)
-        self.write("STOP")
+        self.write(pickle.STOP)
 '''
+PK = {"MARK": b"(", "TUPLE": b"t", "POP": b"0", "POP_MARK": b"1", "TUPLE1": b"\x85", "TUPLE2": b"\x86", "TUPLE3": b"\x87", "EMPTY_TUPLE": b")", "STOP": b".", "PROTO": b"\x80"}
+LARGE = 65536
 
 
 def trees(maxn):
@@ -105,25 +144,46 @@ def trees(maxn):
     return shapes
 
 
-def build(h, g, shape, share=None, leaf_bytes=False, tuples=()):
-    """-> root Node object; `share`: (i, j) makes the j-th node (pre-order) an extra child reference to the i-th.  With leaf_bytes the
-    childless nodes below the root are bytes values (leaf objects that the pickler memoises too); `tuples`: pre-order indexes of the
-    nodes that are tuple-like (TNode)."""
-    nodes = []
+def build(h, g, shape, share=None, leaf_bytes=False, tuples=(), large=False):
+    """-> (root, nodes).  A node is a Node object (children list), a bytes leaf (leaf_bytes: the childless nodes below the root; large:
+    the first of them is a payload of 64 KiB) or - pre-order indexes in `tuples` - a real tuple of its children.  `share`: (i, j) makes
+    the j-th node (an object) refer to the i-th once more, which may close a cycle.  A tuple cannot be extended afterwards, so a
+    shape is built bottom-up and the extra reference goes into an object's children list."""
+    specs = []
 
-    def mk(s, top=False):
-        idx = len(nodes)
-        if leaf_bytes and not top and len(s) == 1:
-            nodes.append(f"leaf-{idx}".encode())
-            return nodes[-1]
-        n = h.I.call(g["TNode" if idx in tuples else "Node"], [f"n{idx}", Seq([], "list")], {})
+    def number(s_, top=False):
+        idx = len(specs)
+        specs.append(None)
+        kids = [number(k) for k in s_[1:]]
+        specs[idx] = (s_, kids, top)
+        return idx
+
+    number(shape, True)
+    nodes = [None] * len(specs)
+    first_leaf = [True]
+
+    def mk(idx):
+        s_, kids, top = specs[idx]
+        if leaf_bytes and not top and len(s_) == 1:
+            if large and first_leaf[0]:
+                first_leaf[0] = False
+                nodes[idx] = b"L" * LARGE
+            else:
+                nodes[idx] = f"leaf-{idx}".encode()
+            return nodes[idx]
+        if idx in tuples:
+            t = Seq([mk(k) for k in kids], "tuple")
+            t.name = f"n{idx}"
+            nodes[idx] = t
+            return t
+        n = h.I.call(g["Node"], [f"n{idx}", Seq([], "list")], {})
         n.name = f"n{idx}"
-        nodes.append(n)
-        for k in s[1:]:
+        nodes[idx] = n
+        for k in kids:
             n.fields["children"].items.append(mk(k))
         return n
 
-    root = mk(shape, True)
+    root = mk(0)
     if share is not None:
         i, j = share
         if i < len(nodes) and j < len(nodes) and i != j and isinstance(nodes[j], Obj):
@@ -131,47 +191,74 @@ def build(h, g, shape, share=None, leaf_bytes=False, tuples=()):
     return root, nodes
 
 
-def reference(root):
-    ev, memo = [], []
+def kids_of(x):
+    if isinstance(x, Obj):
+        return list(x.fields["children"].items)
+    if isinstance(x, Seq):
+        return list(x.items)
+    return []
+
+
+def reference(root, proto=4):
+    """the byte stream of the recursive pickler (the stand-in's own algorithm, written independently on the harness side)"""
+    ev, memo = [], {}
+    binary = proto >= 1
+
+    def key(n):
+        return n if isinstance(n, bytes) else id(n)
+
+    def get(i):
+        return b"GET" + str(i).encode() + b";"
+
+    def memoize(n):
+        idx = len(memo)
+        ev.append(b"PUT" + str(idx).encode() + b";")
+        memo[key(n)] = (idx, n)
 
     def save(n):
+        if key(n) in memo:
+            ev.append(get(memo[key(n)][0]))
+            return
         if isinstance(n, bytes):
-            if any(n is m for m in memo):
-                ev.append(("REF", n))
-            else:
-                ev.append(("BYTES", n))
-                memo.append(n)
-                ev.append(("MEMO", n))
+            ev.append(b"BYTES8:" + n if (proto >= 4 and len(n) >= LARGE) else b"BYTES:" + n + b";")
+            memoize(n)
             return
-        if any(n is m for m in memo):
-            ev.append(("REF", n.name))
-            return
-        if n.cls.name == "TNode":
-            ev.append(("TOPEN", n.name))
-            for c in n.fields["children"].items:
-                save(c)
-            if any(n is m for m in memo):
-                ev.extend([("TDROP", n.name), ("REF", n.name)])
+        if isinstance(n, Seq):
+            k = len(n.items)
+            if k == 0:
+                ev.append(PK["EMPTY_TUPLE"] if binary else PK["MARK"] + PK["TUPLE"])
                 return
-            ev.append(("TCLOSE", n.name))
-            memo.append(n)
-            ev.append(("MEMO", n.name))
+            small = k <= 3 and proto >= 2
+            if not small:
+                ev.append(PK["MARK"])
+            for c in n.items:
+                save(c)
+            if id(n) in memo:
+                g_ = get(memo[id(n)][0])
+                ev.append(PK["POP"] * k + g_ if small else (PK["POP_MARK"] + g_ if binary else PK["POP"] * (k + 1) + g_))
+                return
+            ev.append((PK["EMPTY_TUPLE"], PK["TUPLE1"], PK["TUPLE2"], PK["TUPLE3"])[k] if small else PK["TUPLE"])
+            memoize(n)
             return
-        ev.append(("OPEN", n.name))
-        memo.append(n)
-        ev.append(("MEMO", n.name))
+        ev.append(b"OPEN:" + n.name.encode() + b";")
+        memoize(n)
         for c in n.fields["children"].items:
             save(c)
-        ev.append(("CLOSE", n.name))
+        ev.append(b"CLOSE:" + n.name.encode() + b";")
 
     save(root)
-    return ev
+    return b"".join(ev)
+
+
+def _brief(b_):
+    r = repr(b_)
+    return r if len(r) <= 120 else r[:60] + "..." + r[-50:]
 
 
 def on_cycle(node, only_tuples=False):
-    """is the node reachable from itself through children references (only_tuples: through tuple-like nodes alone)?"""
+    """is the node reachable from itself through children references (only_tuples: through tuples alone)?"""
     def kids(x):
-        return [c for c in x.fields["children"].items if isinstance(c, Obj) and (not only_tuples or c.cls.name == "TNode")]
+        return [c for c in kids_of(x) if isinstance(c, (Obj, Seq)) and (not only_tuples or isinstance(c, Seq))]
     seen, stack = set(), kids(node)
     while stack:
         x = stack.pop()
@@ -202,7 +289,7 @@ def run(ctx):
     res.level = LEVEL
     res.rule_text = ("SPLICE-ORDER: every ordered tree with <= 4 nodes (5 thorough), each also with one shared (twice referenced) node, plus chains; file events of _NonrecursivePickler.dump "
                      "compared with the recursive pickler's order. NONREC: abstract call depth of dump on chains of length 5/10/20 must not grow; save() must not reach realsave. REGISTRY: C05's scripts.")
-    res.trusted_base = common.TRUSTED_AE + ["stand-in for dill.Pickler (rules/c10.py STUB): save = open, memoize, children, close; reference to memoised objects",
+    res.trusted_base = common.TRUSTED_AE + ["stand-in for dill.Pickler (rules/c10.py STUB): objects = open, memoize, children, close; memoised bytes leaves, payloads of 64 KiB written straight to the file (pickle._Framer.write_large_bytes); tuples by a transcription of pickle._Pickler.save_tuple; every operation a bytes token",
                                             "dill / pickle then round-trip edgegraph objects for every protocol: trusted, not decided"]
     res.assumptions = ["round-trip isomorphism itself is NOT claimed (not applicable to static analysis): only the three necessary clauses above"]
     res.explanation = ("Necessary conditions only: the deferred operations reach the file in the recursive pickler's order on every object graph of the scope, dump() runs at constant call depth, and "
@@ -233,41 +320,46 @@ def run(ctx):
         for i, j in itertools.permutations(range(size), 2):
             if ctx.thorough or (i + j) % 2 == 1 or size <= 3:
                 cases.append((s, (i, j)))
-    cases = [(s_, sh_, False, ()) for s_, sh_ in cases] + [(s_, sh_, True, ()) for s_, sh_ in cases if "leaf" in str(s_)[6:]]
-    # tuple-like nodes (memoised after their children): each node in turn, in trees of up to 3 (thorough 4) nodes, alone and with
-    # one extra reference - which may close a cycle through the tuple
+    cases = [(s_, sh_, False, (), None) for s_, sh_ in cases] + [(s_, sh_, True, (), None) for s_, sh_ in cases if "leaf" in str(s_)[6:]]
+    # tuples (memoised after their elements): each node in turn and all non-root ones, in trees of up to 3 (thorough 4) nodes, alone
+    # and with one extra reference - which may close a cycle through the tuple; under the default protocol (short tuples have their own
+    # opcodes) and under protocols 1 and 0 (MARK ... TUPLE; protocol 0 has no POP_MARK)
     tcases = []
-    for s_, sh_, lb_, _ in list(cases):
+    for s_, sh_, lb_, _, _ in list(cases):
         size = str(s_).count("leaf") + str(s_).count("node")
         if lb_ or size > (4 if ctx.thorough else 3):
             continue
         for t in range(size):
-            tcases.append((s_, sh_, False, (t,)))
+            for proto in (None, 1, 0):
+                tcases.append((s_, sh_, False, (t,), proto))
         if size >= 2:
-            tcases.append((s_, sh_, False, tuple(range(size))))
+            tcases.append((s_, sh_, False, tuple(range(1, size)), None))
     cases += tcases
-    for shape, share, leaf_bytes, tuples in cases:
+    # a payload of 64 KiB among the leaves: the recursive pickler writes it straight to the file, whatever write() has been replaced by
+    cases += [(s_, sh_, "large", (), None) for s_, sh_, lb_, _, _ in list(cases) if lb_ is True and (sh_ is None or ctx.thorough)]
+    for shape, share, leaf_bytes, tuples, proto in cases:
         for entry in ("dumps", "dump"):
             try:
                 h.reset()
                 h.settle()
-                root, nodes = build(h, stub, shape, share, leaf_bytes, tuples)
-                if tuples and any(on_cycle(nodes[t], only_tuples=True) for t in tuples if t < len(nodes) and isinstance(nodes[t], Obj)):
+                root, nodes = build(h, stub, shape, share, bool(leaf_bytes), tuples, large=(leaf_bytes == "large"))
+                if tuples and any(on_cycle(nodes[t], only_tuples=True) for t in tuples if t < len(nodes) and isinstance(nodes[t], Seq)):
                     continue        # a reference cycle made of tuples only cannot be built (tuples are immutable)
+                kw = {} if proto is None else {"protocol": proto}
                 if entry == "dumps":
-                    out = h.call(mod["dumps"], root)
-                    events = out.value.items if out.kind == "return" and isinstance(out.value, Seq) else None
+                    out = h.call(mod["dumps"], root, **kw)
+                    events = out.value.items if out.kind == "return" and isinstance(out.value, Seq) else ([out.value] if out.kind == "return" and isinstance(out.value, bytes) else None)
                 else:
                     f = bytesio(h.I)
-                    out = h.call(mod["dump"], root, f)
+                    out = h.call(mod["dump"], root, f, **kw)
                     events = f.attrs["events"] if out.kind == "return" else None
             except Unknown as u:
                 res.ob(False)
-                res.undecide(f"SPLICE-ORDER {shape} share={share} via {entry}: {u}")
+                res.undecide(f"SPLICE-ORDER {shape} share={share} tuples={list(tuples)} via {entry}: {u}")
                 continue
             n += 1
-            want = reference(root)
-            got = None
+            p_eff = 4 if proto is None else proto
+            want = reference(root, p_eff)
             why = None
             if events is None:
                 why = f"{entry} gives {out!r}"
@@ -278,19 +370,29 @@ def run(ctx):
                         flat.extend(e.items)
                     else:
                         flat.append(e)
-                got = [tuple(e.items) if isinstance(e, Seq) else e for e in flat]
-                body = [e for e in got if isinstance(e, tuple)]
-                tail = [e for e in got if not isinstance(e, tuple)]
-                if body != want:
-                    why = f"operations reach the file as {body}, the recursive pickler's order is {want}"
-                elif not got or got[-1] != b"." and got[-1] != "STOP":
-                    why = f"STOP is not the last thing written: {tail}"
-            res.ob(why is None, sig=(shape, share, entry, leaf_bytes, tuples), sample={"shape": str(shape), "shared": share, "entry": entry, "bytes_leaves": leaf_bytes, "tuple_like_nodes": list(tuples)})
+                if not all(isinstance(e, bytes) for e in flat):
+                    raise_unknown = [e for e in flat if not isinstance(e, bytes)][:2]
+                    res.ob(False)
+                    res.undecide(f"SPLICE-ORDER {shape} share={share} via {entry}: the file received something that is not bytes: {raise_unknown!r}")
+                    continue
+                stream = b"".join(flat)
+                header = PK["PROTO"] + bytes([p_eff]) if p_eff >= 2 else b""
+                body = stream[len(header):-1] if stream.startswith(header) else stream[:-1]
+                if not stream.endswith(PK["STOP"]):
+                    why = f"STOP is not the last thing written: the stream ends with {_brief(stream[-24:])}"
+                elif p_eff >= 2 and not stream.startswith(header):
+                    why = f"the stream does not start with the protocol header: {_brief(stream[:24])}"
+                elif body != want:
+                    k = next((i for i, (x, y) in enumerate(zip(body, want)) if x != y), min(len(body), len(want)))
+                    why = (f"the operations reach the file in another order than the recursive pickler produces: from byte {k} the stream reads {_brief(body[max(0, k - 12):k + 60])}, "
+                           f"the recursive pickler's {_brief(want[max(0, k - 12):k + 60])}")
+            res.ob(why is None, sig=(shape, share, entry, leaf_bytes, tuples, proto), sample={"shape": str(shape), "shared": share, "entry": entry, "bytes_leaves": leaf_bytes, "tuples": list(tuples), "protocol": p_eff})
             if why:
-                cyc = bool(tuples) and any(on_cycle(nodes[t]) for t in tuples if t < len(nodes) and isinstance(nodes[t], Obj))
-                res.violation("SPLICE-ORDER", MOD + "._NonrecursivePickler.dump", f"shared-object={share is not None},entry={entry}" + (",leaves-are-bytes-values" if leaf_bytes else "")
+                cyc = bool(tuples) and any(on_cycle(nodes[t]) for t in tuples if t < len(nodes) and isinstance(nodes[t], Seq))
+                res.violation("SPLICE-ORDER", MOD + "._NonrecursivePickler.dump", f"shared-object={share is not None},entry={entry}" + (",leaves-are-bytes-values" if leaf_bytes else "") + (",payload-of-64KiB" if leaf_bytes == "large" else "")
                               + (f",tuple-like-node-on-a-cycle={cyc}" if tuples else ""),
-                              f"object graph {shape} share={share}{' (childless nodes are bytes values)' if leaf_bytes else ''}{' with tuple-like nodes ' + str(list(tuples)) if tuples else ''} through {entry}: {why}",
+                              f"object graph {shape} share={share}{' (childless nodes are bytes values' + (', one of 64 KiB)' if leaf_bytes == 'large' else ')') if leaf_bytes else ''}{' with tuples at ' + str(list(tuples)) if tuples else ''}"
+                              f"{'' if proto is None else ' protocol ' + str(proto)} through {entry}: {why}",
                               replay=TUPLE_REPLAY if cyc else "")
     res.rule("SPLICE-ORDER", n)
     # ---- NONREC: constant call depth on chains
